@@ -255,6 +255,38 @@ pub fn run(ctx: &mut Ctx) {
         }
     }
 
+    // suffix chains: every name is one new label in front of the previous name, so the compressing writer emits a label and
+    // a pointer to the previous name, which is itself a label and a pointer ... reading the d-th name back takes d-1 jumps.
+    // Depths up to 120 (a name of 1-octet labels stays under 255 octets); names as owners and inside compressible RDATA.
+    for idx in 0..if ctx.slow_tool { 4 } else { tier.pick(600u64, 30_000u64) } {
+        if !ctx.take("suffix-chain", idx) {
+            continue;
+        }
+        let mut r = ctx.rng("suffix-chain", idx);
+        let depth = if ctx.slow_tool { 20 + idx as usize * 10 } else if idx < 119 { 2 + idx as usize } else { r.usize(2, 120) };
+        let wide = idx % 5 == 4 && depth <= 40;
+        let mut p = PktM { id: idx as u16, ..Default::default() };
+        let mut cur: NameM = if idx % 3 == 0 { vec![] } else { vec![b"local".to_vec()] };
+        let depth = depth.min(if cur.is_empty() { 120 } else { 117 });
+        for k in 0..depth {
+            let lab: Vec<u8> = if wide { format!("l{}", k).into_bytes() } else { vec![b'a' + (r.below(26) as u8)] };
+            cur.insert(0, lab);
+            let rec = match (idx + k as u64) % 4 {
+                0 => RecSem { name: cur.clone(), rtype: 1, class: 1, flush: false, ttl: k as u32, rd: Rd::Fields(vec![F::Int(k as u64)]) },
+                1 => RecSem { name: vec![b"x".to_vec()], rtype: 12, class: 1, flush: false, ttl: 9, rd: Rd::Fields(vec![F::Name(cur.clone())]) },
+                2 => RecSem { name: cur.clone(), rtype: 2, class: 1, flush: true, ttl: 7, rd: Rd::Fields(vec![F::Name(cur[1..].to_vec())]) },
+                _ => RecSem { name: cur.clone(), rtype: 15, class: 1, flush: false, ttl: 5, rd: Rd::Fields(vec![F::Int(10), F::Name(cur.clone())]) },
+            };
+            p.secs[(k * 3 / depth.max(1)).min(2)].push(rec);
+        }
+        // the deepest name once more at the end, and as a question
+        p.secs[2].push(RecSem { name: cur.clone(), rtype: 1, class: 1, flush: false, ttl: 1, rd: Rd::Fields(vec![F::Int(1)]) });
+        ctx.add("suffix_chain_packets", 1);
+        ctx.add(&format!("suffix_chain_depth_{}", match depth { 0..=16 => "up_to_16", 17..=40 => "17_to_40", 41..=80 => "41_to_80", _ => "over_80" }), 1);
+        ctx.sample("suffix-chain", || json!({"depth": depth, "records": p.secs.iter().map(|s| s.len()).sum::<usize>()}));
+        check_one(ctx, "suffix-chain", idx, &p);
+    }
+
     // size sweep: first occurrence at every offset of the window around 16384
     if !ctx.slow_tool {
         let reps = tier.pick(4u64, 60u64);
